@@ -96,12 +96,13 @@ Definition c11_case (t : bytes) : rcase := mkrcase t [((hx "6f"), o_desc)] [] (O
 Definition out_of (o : outcome) : option bytes := match o with OOk b _ => Some b | _ => None end.
 Definition unknown_of (o : outcome) : option bytes := match o with OErr _ (EUnknown n) _ => Some n | _ => None end.
 
-Theorem C11_method_after_index_refuted :
+Theorem C11_method_after_index :
   (* <%= o.Ins[0].Name %>  prints  o.Ins[0] *)
   out_of (run_case [] (c11_case (hx "3c253d206f2e496e735b305d2e4e616d6520253e"))) = Some (hx "6f2e496e735b305d") /\
   (* <%= o.In.Hello("z") %>  prints  hello z from o.In *)
   out_of (run_case [] (c11_case (hx "3c253d206f2e496e2e48656c6c6f28227a222920253e"))) = Some (hx "68656c6c6f207a2066726f6d206f2e496e") /\
-  (* <%= o.Ins[0].Hello("z") %>  fails:  o.Ins: unknown identifier *)
-  unknown_of (run_case [] (c11_case (hx "3c253d206f2e496e735b305d2e48656c6c6f28227a222920253e"))) = Some (hx "6f2e496e73").
+  (* <%= o.Ins[0].Hello("z") %>  prints  hello z from o.Ins[0]  (it failed with o.Ins: unknown identifier
+     until evalIndexCallee took the rebinding key from the parser's placeholder: fix 2026-10-01) *)
+  out_of (run_case [] (c11_case (hx "3c253d206f2e496e735b305d2e48656c6c6f28227a222920253e"))) = Some (hx "68656c6c6f207a2066726f6d206f2e496e735b305d").
 Proof. vm_compute. repeat split. Qed.
-Print Assumptions C11_method_after_index_refuted.
+Print Assumptions C11_method_after_index.
